@@ -1408,8 +1408,8 @@ const embBase = "1099511627776" // 2^40: addresses of embedded, separately addre
 // embeddedKey names a struct field for the Embedded / Guarded tables.
 func embeddedKey(sh *Shape, field int) string {
 	n, ok := sh.typ.(*types.Named)
-	if !ok || n.Obj().Pkg() == nil {
-		return ""
+	if !ok || n.Obj().Pkg() == nil || field < 0 || field >= len(sh.fnames) {
+		return "" // (opaque library types have no modelled fields)
 	}
 	return n.Obj().Pkg().Path() + "." + n.Obj().Name() + "." + sh.fnames[field]
 }
